@@ -172,12 +172,12 @@ def tasks(tier, seed):
   for keep in (False, True):
     for nev in ((0, 1, 2, 3, 4) if big else (0, 1, 2, 3)):
       NOUT = (3 * nev + 2) if nev else 2
-      if nev >= 3: cfgL = 1 if not big else 2
+      if nev >= 3: cfgL = 2 if (big and nev == 3) else 1     # 4 events with data length 2: > 60000 paths, over the task cap
       else: cfgL = L
       T.append(("h_mix", {"events": nev, "D": D if nev < 3 else 2, "L": cfgL, "keep": keep, "NOUT": min(NOUT, 14 if big else 9)}))
       if nev in (1, 2) or (big and nev == 3):
         T.append(("h_mix", {"events": nev, "D": 2, "L": 1 if nev > 1 else 2, "keep": keep, "NOUT": 7, "interleave": True,
-                            "A": 3 if nev > 1 else 4, "kinds": ["gen", "tuple", "list"][:nev]}))
+                            "A": (3 if nev == 2 else 2) if nev > 1 else 4, "kinds": ["gen", "tuple", "list"][:nev]}))
     T.append(("h_mix", {"events": 3, "D": 3, "L": 2, "keep": keep, "NOUT": 9, "intdelta": True, "symzero": False}))
   T.append(("h_negative_delta", {}))
   for p, q in ((1, 3), (2, 3), (3, 4), (5, 4), (1, 7), (7, 5), (1, 10)) + (((3, 10), (9, 7), (11, 10)) if big else ()):
